@@ -80,7 +80,7 @@ WellFormed(g) ==
 \* loop depth: every statement of the source tree has a nesting depth (number of enclosing loop bodies; a loop's
 \* condition counts as outside the loop; a for's init is outside, its step inside); the block holding the statement
 \* with that tag must record this depth
-TagDepth(tree, tag) == LET hits == {n \in 1..Len(tree) : tree[n].k \in {"s", "r", "if", "ife", "wh"} /\ tree[n].id = tag} IN
+TagDepth(tree, tag) == LET hits == {n \in 1..Len(tree) : tree[n].k \in {"s", "n", "r", "if", "ife", "wh"} /\ tree[n].id = tag} IN
                        IF hits # {} THEN tree[CHOOSE n \in hits : TRUE].depth
                        ELSE LET fr == {n \in 1..Len(tree) : tree[n].k = "for" /\ tag \in {tree[n].id, tree[n].id + 1, tree[n].id + 2}} IN
                             IF fr = {} THEN -1
@@ -172,7 +172,7 @@ SrcStep(st, d) ==
     IF fr.f = "forloop" THEN
          <<nd.id + 1, IF d THEN PushKids(rest \o <<[f |-> "forloop", n |-> fr.n], [f |-> "forstep", n |-> fr.n]>>, <<nd.t>>) ELSE rest, FALSE, TRUE>>
     ELSE IF fr.f = "forstep" THEN <<nd.id + 2, rest, FALSE, FALSE>>
-    ELSE CASE nd.k = "s" -> <<nd.id, rest, FALSE, FALSE>>
+    ELSE CASE nd.k \in {"s", "n"} -> <<nd.id, rest, FALSE, FALSE>>
            [] nd.k = "r" -> <<nd.id, <<>>, TRUE, FALSE>>
            [] nd.k = "blk" -> SrcStep(PushKids(rest, nd.kids), d)
            [] nd.k = "if" -> <<nd.id, IF d THEN PushKids(rest, <<nd.t>>) ELSE rest, FALSE, TRUE>>
